@@ -93,8 +93,46 @@ def rand_base_graph(rng, names_pool, nmax=6, max_order=3, p_ring=0.3, p_zero=0.1
 
 # ---------------------------------------------------------------- fragments with descriptors
 AA_SKELETONS = ['C', 'CC', 'COC', 'CC(C)C', 'C=C', 'CCO', 'N', 'O', 'CC(=O)O', 'C1CC1', 'CCN', 'CS', 'c1ccccc1', 'c1ccncc1',
-                'C(F)C', 'CCl', 'C#C']
-CG_SKELETONS = ['[#A]', '[#A][#B]', '[#A][#B][#C]', '[#A]([#B])[#C]', '[#A]1[#B][#C]1', '[#X]=[#Y]']
+                'C(F)C', 'CCl', 'C#C', 'CC(C)(C)C', 'C(F)(Cl)C', 'CC(C)(C(=O)OC)', 'C(C)(O)']
+CG_SKELETONS = ['[#A]', '[#A][#B]', '[#A][#B][#C]', '[#A]([#B])[#C]', '[#A]1[#B][#C]1', '[#X]=[#Y]', '[#P]([#Q])([#R])',
+                '[#P]([#Q])([#R])[#S]']
+
+
+def owners(text):
+    """[(position, atom index)]: the positions of a skeleton at which a descriptor may be written and the
+    atom it then belongs to — after each atom token (and its ring digits), and after a closed branch (the
+    atom the branch hangs on)"""
+    out = []
+    stack = []
+    cur = -1
+    count = 0
+    i = 0
+    while i < len(text):
+        c = text[i]
+        if c == '[':
+            i = text.index(']', i) + 1
+            while i < len(text) and (text[i].isdigit()):
+                i += 1
+            cur = count
+            count += 1
+            out.append((i, cur))
+        elif c.isalpha():
+            i += 2 if text[i:i + 2] in ('Cl', 'Br') else 1
+            while i < len(text) and text[i].isdigit():
+                i += 1
+            cur = count
+            count += 1
+            out.append((i, cur))
+        elif c == '(':
+            stack.append(cur)
+            i += 1
+        elif c == ')':
+            cur = stack.pop()
+            i += 1
+            out.append((i, cur))
+        else:
+            i += 1
+    return out
 
 
 def split_atoms(text):
@@ -128,27 +166,38 @@ def rand_descriptor(rng, kinds='$$$><!', labels=('', '', 'A', 'B', '1'), syms=('
     return k + rng.choice(labels), rng.choice(syms)
 
 
-def decorate(rng, skeleton, ndesc, **kw):
-    """insert ndesc descriptors after random atoms (symbol before the descriptor)"""
-    ends = split_atoms(skeleton)
+SYM_ORDER = {'': 1, '-': 1, '=': 2, '#': 3, '.': 0}
+
+
+def decorate(rng, skeleton, ndesc, expect=None, **kw):
+    """insert ndesc descriptors after random atoms or closed branches (symbol before the descriptor);
+    when `expect` is a dict it receives {atom index: [kind+label+order, ...]} in textual order"""
+    pos = owners(skeleton)
     ins = {}
     for _ in range(ndesc):
-        e = rng.choice(ends)
+        e, owner = rng.choice(pos)
         d, sym = rand_descriptor(rng, **kw)
-        ins.setdefault(e, []).append(sym + '[' + d + ']')
+        ins.setdefault(e, []).append((sym + '[' + d + ']', owner, d + str(SYM_ORDER[sym])))
     out = ''
     prev = 0
     for e in sorted(ins):
-        out += skeleton[prev:e] + ''.join(ins[e])
+        out += skeleton[prev:e] + ''.join(t for t, _, _ in ins[e])
         prev = e
+        if expect is not None:
+            for _, owner, full in ins[e]:
+                expect.setdefault(owner, []).append(full)
     return out + skeleton[prev:]
 
 
-def rand_fragment_set(rng, names, all_atom=True, max_desc=3, **kw):
-    """{#N=...,#M=...} with descriptors on purpose ambiguous"""
+def rand_fragment_set(rng, names, all_atom=True, max_desc=3, expect=None, **kw):
+    """{#N=...,#M=...} with descriptors on purpose ambiguous; `expect` (dict) receives per fragment
+    name the descriptors the text writes on each atom index"""
     pool = AA_SKELETONS if all_atom else CG_SKELETONS
     defs = []
     for nm in names:
         sk = rng.choice(pool)
-        defs.append('#%s=%s' % (nm, decorate(rng, sk, rng.randint(0, max_desc), **kw)))
+        ex = {} if expect is not None else None
+        defs.append('#%s=%s' % (nm, decorate(rng, sk, rng.randint(0, max_desc), expect=ex, **kw)))
+        if expect is not None:
+            expect[nm] = {str(k): v for k, v in ex.items()}
     return '{' + ','.join(defs) + '}'
